@@ -94,7 +94,7 @@ class ContentsOf(Protocol):
 
 class RealEntriesIfDirExists(EntriesIfDirExists):
     def entries_if_dir_exists(self, path):
-        if os.path.exists(path):
+        if os.path.isdir(path):
             for entry in os.listdir(path):
                 yield entry
 
